@@ -7,10 +7,19 @@ Regenerates, from the source text of bitvec.py:
     `g_<method>_<k> (free names, sorted) : bool`;
   * the integer assignments listed in EXPRS (`bl`, `byte_length`, `lo`, `hi`) as
     `e_<method>_<name> (free names, sorted) : Z`.
+  * every concrete-path return `return HalmosBitVec(<int arithmetic>, size=...)` of the methods
+    listed in RETS, in source order, as three definitions over the sorted free names:
+      `r_<method>_<k>  : Z`       the value (Python int semantics: `//`, `%` floor, `>>` = py_shr,
+                                  `pow(a, b, m)` = py_pow3, `~a` = -a - 1),
+      `rd_<method>_<k> : list Z`  the right operands of every `//` and `%` (Python raises
+                                  ZeroDivisionError when one of them is 0),
+      `rw_<method>_<k> : Z`       the work measure: bits of the largest integer CPython
+                                  materialises while evaluating it (rules in Model/PyInt.v).
 Model/BitVecModel.v calls these definitions, so a boundary change in the source
-(`>= 31` -> `> 31`, `rhs == 1` -> `rhs == 2`, `lo + 7` -> `lo + 8`, ...) changes the model the
-theorems are proved about.  Fail-closed: the number of guards per method and their free
-names must be exactly the expected ones.
+(`>= 31` -> `> 31`, `rhs == 1` -> `rhs == 2`, `lo + 7` -> `lo + 8`, `pow(a, b, m)` -> `a ** b`,
+a dropped `== 0` guard in front of a `%`, swapped operands, ...) changes the model the
+theorems are proved about.  Fail-closed: the number of guards / returns per method and their
+free names must be exactly the expected ones.
 """
 import ast
 
@@ -39,10 +48,52 @@ METHODS = {
     "ule": [("other_value", "self_value")],
     "uge": [("other_value", "self_value")],
     "byte": [("byte_length", "idx")],
+    "addmod": [("modulus_value",)],
+    "mulmod": [("modulus_value",)],
+    "eq": [("other_value", "self_value")],     # `self._value == other._value`: int reading of the overloaded ==
+    "is_zero": [("self_value",)],              # `self._value == 0`
+}
+# method -> expected concrete-path returns `return HalmosBitVec(<int arithmetic>, size=...)`, in
+# source order, each the sorted tuple of the names it may use (= the parameters of r_/rd_/rw_)
+RETS = {
+    "add": [("other_value", "self_value")],
+    "sub": [("other_value", "self_value")],
+    "mul": [("lhs", "rhs"), ("lhs", "rhs"), ("lhs", "rhs")],
+    "div": [("lhs", "rhs")],
+    "mod": [("lhs", "rhs")],
+    "exp": [("lhs", "rhs", "size")],
+    "addmod": [("modulus_value", "other_value", "self_value")],
+    "mulmod": [("modulus_value", "other_value", "self_value")],
+    "lshl": [("self_value", "shift_amount")],
+    "lshr": [("self_value", "shift_amount")],
+    "bitwise_not": [("self_size", "self_value")],
+    "bitwise_and": [("other_value", "self_value")],
+    "bitwise_or": [("other_value", "self_value")],
+    "bitwise_xor": [("other_value", "self_value")],
 }
 EXPRS = {
     "signextend": {"bl": ("size",)},
     "byte": {"byte_length": ("size",), "lo": ("byte_length", "idx"), "hi": ("lo",)},
+    "mod": {"bitsize": ("rhs_bit_length",)},        # `rhs.bit_length()` is the parameter rhs_bit_length
+    "addmod": {"newsize": ("size",)},
+    "mulmod": {"newsize": ("size",)},
+}
+# every operation method of HalmosBitVec: the ones not listed in METHODS / RETS must have no
+# comparison guard / no arithmetic concrete-path return (a new native fast path has to be modelled
+# before it is trusted)
+OPS = ["add", "sub", "mul", "div", "sdiv", "mod", "smod", "exp", "addmod", "mulmod", "signextend", "lshl", "lshr",
+       "ashr", "bitwise_not", "bitwise_and", "bitwise_or", "bitwise_xor", "ult", "ugt", "slt", "sgt", "ule", "uge",
+       "eq", "byte", "is_zero"]
+# number of branch points (if / conditional expression / match case) of every method the model follows
+# branch by branch (HalmosBool.__new__/__init__ are not: the model only has TRUE/FALSE | BoolRef)
+BRANCHES = {
+    "HalmosBitVec": {"__new__": 2, "__init__": 11, "as_z3": 1, "is_zero": 0, "is_non_zero": 0, "add": 0, "sub": 0,
+                     "mul": 10, "div": 6, "sdiv": 5, "mod": 6, "smod": 5, "exp": 6, "addmod": 4, "mulmod": 4,
+                     "signextend": 1, "lshl": 3, "lshr": 4, "ashr": 1, "bitwise_not": 1, "bitwise_and": 0,
+                     "bitwise_or": 0, "bitwise_xor": 0, "ult": 1, "ugt": 2, "slt": 1, "sgt": 1, "ule": 1, "uge": 1,
+                     "eq": 0, "byte": 2},
+    "HalmosBool": {"as_z3": 1, "value": 2, "is_zero": 2, "is_non_zero": 0, "eq": 0, "neg": 0, "bitwise_not": 0,
+                   "bitwise_and": 4, "bitwise_or": 4, "bitwise_xor": 4, "as_bv": 4},
 }
 CMP_OK = (ast.Eq, ast.Lt, ast.LtE, ast.Gt, ast.GtE)
 
@@ -50,9 +101,19 @@ CMP_OK = (ast.Eq, ast.Lt, ast.LtE, ast.Gt, ast.GtE)
 class _Flatten(ast.NodeTransformer):
     """`a.b` -> Name `a_b` (only Name.attr, one level)."""
 
+    def visit_Call(self, node):
+        f = node.func   # `x.bit_length()` -> Name `x_bit_length`
+        if (isinstance(f, ast.Attribute) and f.attr == "bit_length" and isinstance(f.value, ast.Name)
+                and not node.args and not node.keywords):
+            return ast.copy_location(ast.Name(id=f"{f.value.id}_bit_length", ctx=ast.Load()), node)
+        if isinstance(f, ast.Name) and f.id == "pow" and not node.keywords:
+            node.args = [self.visit(a) for a in node.args]
+            return node
+        raise TranslateError(f"unsupported call shape {ast.unparse(node)!r}")
+
     def visit_Attribute(self, node):
         if isinstance(node.value, ast.Name):
-            return ast.copy_location(ast.Name(id=f"{node.value.id}_{node.attr}", ctx=ast.Load()), node)
+            return ast.copy_location(ast.Name(id=f"{node.value.id}_{node.attr.lstrip(chr(95))}", ctx=ast.Load()), node)
         raise TranslateError(f"unsupported attribute shape {ast.unparse(node)!r}")
 
 
@@ -82,12 +143,27 @@ def _simple(node):
     return True
 
 
+SANITY = {"addmod": 2, "mulmod": 2}   # expected number of `if r.size != newsize: raise` checks
+
+
 def _guards(fn):
     out = []
+    sanity = []
 
     class V(ast.NodeVisitor):
         def visit_Assert(self, node):  # asserts are not branches
             pass
+
+        def visit_If(self, node):
+            # `if r.size != newsize: raise ValueError(r)`: internal size sanity checks of addmod /
+            # mulmod; sizes are tracked by the model's own n / n2 bookkeeping (bv_resize)
+            if (len(node.body) == 1 and isinstance(node.body[0], ast.Raise) and not node.orelse
+                    and isinstance(node.test, ast.Compare) and len(node.test.ops) == 1
+                    and isinstance(node.test.ops[0], ast.NotEq)
+                    and ast.unparse(node.test).endswith(".size != newsize")):
+                sanity.append(ast.unparse(node.test))
+                return
+            self.generic_visit(node)
 
         def visit_Compare(self, node):
             if all(isinstance(o, (ast.Is, ast.IsNot)) for o in node.ops):
@@ -99,7 +175,97 @@ def _guards(fn):
             out.append(node)
 
     V().visit(fn)
+    if len(sanity) != SANITY.get(fn.name, 0):
+        raise TranslateError(f"{fn.name}: expected {SANITY.get(fn.name, 0)} size sanity checks, found {sanity}")
     return out
+
+
+def _arith(node):
+    """int arithmetic only: names, attributes of names, int literals, binary / unary arithmetic,
+    pow(a, b[, m])"""
+    for n in ast.walk(node):
+        if isinstance(n, ast.Call):
+            if not (isinstance(n.func, ast.Name) and n.func.id == "pow" and len(n.args) in (2, 3) and not n.keywords):
+                return False
+        elif isinstance(n, ast.Constant):
+            if isinstance(n.value, bool) or not isinstance(n.value, int):
+                return False
+        elif isinstance(n, ast.BinOp) and isinstance(n.op, (ast.Div, ast.MatMult)):
+            return False   # `/` is never int arithmetic here (z3 overload, or the latent `other / self`)
+        elif not isinstance(n, (ast.BinOp, ast.UnaryOp, ast.Name, ast.Attribute, ast.Load, ast.operator, ast.unaryop)):
+            return False
+    return True
+
+
+def _returns(fn):
+    """the `return HalmosBitVec(<E>, size=...)` statements whose <E> is an arithmetic expression
+    with at least one operator, in source order"""
+    out = []
+    for node in ast.walk(fn):
+        if not isinstance(node, ast.Return) or not isinstance(node.value, ast.Call):
+            continue
+        c = node.value
+        if not (isinstance(c.func, ast.Name) and c.func.id == "HalmosBitVec" and len(c.args) == 1):
+            continue
+        e = c.args[0]
+        if isinstance(e, (ast.BinOp, ast.UnaryOp, ast.Call)) and _arith(e):
+            out.append(node)
+    return sorted(out, key=lambda n: (n.lineno, n.col_offset))
+
+
+class _Ret:
+    """one arithmetic expression -> (value, bits) Gallina texts; collects the divisors and the bits
+    of every sub-expression"""
+
+    SAME = {ast.FloorDiv: "Z.div", ast.Mod: "Z.modulo", ast.RShift: "py_shr", ast.BitAnd: "Z.land",
+            ast.BitOr: "Z.lor", ast.BitXor: "Z.lxor"}
+
+    def __init__(self):
+        self.divisors = []
+        self.bits = []
+
+    def note(self, v, b):
+        self.bits.append(b)
+        return v, b
+
+    def tr(self, n):
+        if isinstance(n, ast.Constant):
+            v = n.value
+            return self.note(f"({v})" if v < 0 else f"{v}", str(max(1, abs(v).bit_length())))
+        if isinstance(n, ast.Name):
+            return self.note(n.id, f"(py_bits {n.id})")
+        if isinstance(n, ast.UnaryOp):
+            v, b = self.tr(n.operand)
+            if isinstance(n.op, ast.USub):
+                return self.note(f"(Z.opp {v})", b)
+            if isinstance(n.op, ast.Invert):   # ~a == -a - 1
+                return self.note(f"(Z.sub (Z.opp {v}) 1)", f"(Z.add {b} 1)")
+            raise TranslateError(f"unsupported unary operator in {ast.unparse(n)!r}")
+        if isinstance(n, ast.Call):
+            args = [self.tr(a) for a in n.args]
+            if len(args) == 3:
+                (a, ba), (e, be), (m, bm) = args
+                return self.note(f"(py_pow3 {a} {e} {m})", f"(Z.max (Z.max {ba} {be}) (Z.mul 2 {bm}))")
+            (a, ba), (e, _) = args
+            return self.note(f"(Z.pow {a} {e})", f"(Z.mul {ba} (Z.max 1 {e}))")
+        if isinstance(n, ast.BinOp):
+            a, ba = self.tr(n.left)
+            c, bc = self.tr(n.right)
+            op = type(n.op)
+            if op in (ast.Add, ast.Sub):
+                f = "Z.add" if op is ast.Add else "Z.sub"
+                return self.note(f"({f} {a} {c})", f"(Z.add (Z.max {ba} {bc}) 1)")
+            if op is ast.Mult:
+                return self.note(f"(Z.mul {a} {c})", f"(Z.add {ba} {bc})")
+            if op in (ast.FloorDiv, ast.Mod):
+                self.divisors.append(c)
+            if op in self.SAME:
+                return self.note(f"({self.SAME[op]} {a} {c})", f"(Z.max {ba} {bc})")
+            if op is ast.LShift:
+                return self.note(f"(Z.shiftl {a} {c})", f"(Z.add {ba} (Z.max 0 {c}))")
+            if op is ast.Pow:
+                return self.note(f"(Z.pow {a} {c})", f"(Z.mul {ba} (Z.max 1 {c}))")
+        raise TranslateError(f"unsupported arithmetic shape {ast.unparse(n)!r}")
 
 
 def _emit(name, params, body, ty):
@@ -111,11 +277,13 @@ def translate(src_text):
     tree = ast.parse(src_text)
     lines = [
         "(* GENERATED by translate/t_purefuns.py from src/halmos/bitvec.py -- do not edit *)",
-        "From Coq Require Import ZArith Bool.",
+        "From Coq Require Import ZArith Bool List.",
+        "From HV Require Import Model.PyInt.",
+        "Import ListNotations.",
         "Open Scope Z_scope.",
         "",
     ]
-    info = {"guards": {}, "exprs": {}}
+    info = {"guards": {}, "exprs": {}, "rets": {}}
 
     # ---- is_power_of_two
     fn = find_function(tree, "is_power_of_two")
@@ -145,8 +313,19 @@ def translate(src_text):
     info["to_signed"] = [ast.unparse(body[0]), ast.unparse(body[1])]
     lines.append("")
 
+    # ---- branch structure
+    info["branches"] = {}
+    for cls, table in BRANCHES.items():
+        for m, want in table.items():
+            fn = find_function(tree, m, cls=cls)
+            got_n = sum(isinstance(x, (ast.If, ast.IfExp, ast.match_case)) for x in ast.walk(fn))
+            if got_n != want:
+                raise TranslateError(f"{cls}.{m}: {got_n} branch points, the model follows {want}")
+            info["branches"][f"{cls}.{m}"] = got_n
+
     # ---- guards and integer expressions of the HalmosBitVec methods
-    for m, expected in METHODS.items():
+    for m in OPS:
+        expected = METHODS.get(m, [])
         fn = find_function(tree, m, cls="HalmosBitVec")
         gs = _guards(fn)
         got = []
@@ -172,6 +351,34 @@ def translate(src_text):
             lines.append(f"(* {m}: `{ast.unparse(asg[0])}` *)")
             lines.append(_emit(f"e_{m}_{name}", sorted(params), e.as_Z(), "Z"))
             info["exprs"][f"{m}.{name}"] = ast.unparse(asg[0].value)
+        lines.append("")
+
+    # ---- concrete-path return expressions
+    for m in OPS:
+        expected = RETS.get(m, [])
+        fn = find_function(tree, m, cls="HalmosBitVec")
+        rs = _returns(fn)
+        got, texts = [], []
+        for k, r in enumerate(rs, 1):
+            e = _Flatten().visit(ast.parse(ast.unparse(r.value.args[0]), mode="eval").body)
+            free = tuple(p for p in _free_names(e) if p != "pow")
+            # the parameter list is the expected one; the expression may use fewer names (the
+            # theorems about the regenerated definition decide whether that is still right)
+            params = tuple(expected[k - 1]) if k <= len(expected) and set(free) <= set(expected[k - 1]) else free
+            got.append(params)
+            t = _Ret()
+            v, _ = t.tr(e)
+            w = t.bits[-1]
+            for b in reversed(t.bits[:-1]):
+                w = f"(Z.max {b} {w})"
+            lines.append(f"(* {m}: `{ast.unparse(r)}` *)")
+            lines.append(_emit(f"r_{m}_{k}", params, v, "Z"))
+            lines.append(_emit(f"rd_{m}_{k}", params, "[" + "; ".join(t.divisors) + "]", "list Z"))
+            lines.append(_emit(f"rw_{m}_{k}", params, w, "Z"))
+            texts.append(ast.unparse(r.value.args[0]))
+        if got != [tuple(x) for x in expected]:
+            raise TranslateError(f"{m}: expected concrete-path returns over {expected}, found {got} ({texts})")
+        info["rets"][m] = texts
         lines.append("")
     return "\n".join(lines), info
 
